@@ -309,6 +309,14 @@ func (s *Syncer[H]) verifyBifurcating(ctx context.Context, subjHead, newHead H) 
 				err,
 			)
 		}
+		// the search narrows down on heights: an answer at another height is not the intermediate asked for
+		if candidateHeader.Height() != candidateHeight {
+			return fmt.Errorf(
+				"bifurcation: getting candidate subjective head (%d): got height %d",
+				candidateHeight,
+				candidateHeader.Height(),
+			)
+		}
 
 		if err := header.Verify(subjHead, candidateHeader); err != nil {
 			log.Warnw(
